@@ -137,7 +137,8 @@ impl SpellOpts {
             formfeed: false,
             non_ascii: true,
             tight_trivia: false,
-            star_comments: false,
+            // (comments whose text ends in a run of stars: KF-C08-02, repaired)
+            star_comments: true,
             line_comments: false,
             touch: false,
             mild: false,
@@ -216,7 +217,7 @@ fn comment(t: &mut Tape, o: &SpellOpts) -> String {
             body.push_str(*t.pick(COMMENT_BODIES));
         }
     }
-    // a body must not contain the terminator and (lexer regex) must not end in '*'
+    // a body must not contain the terminator; it may end in a run of stars (`(* x **)`, `(***)`)
     let mut body = body.replace("*)", "* )");
     if o.star_comments && t.ratio(1, 3) {
         let k = 1 + t.below(3);
